@@ -218,6 +218,9 @@ def r13_4_address(ctx):
         return base64.b32encode(pk + chk).decode().rstrip("=")
 
     cases = [(mkaddr(bytes(32)), True, "zero address"), (mkaddr(bytes(range(32))), True, "well-formed"), (mkaddr(bytes(32))[:-1], False, "57 characters"), (mkaddr(bytes(32)) + "A", False, "59 characters"), (mkaddr(bytes(32)).lower(), False, "lower case"), (mkaddr(bytes(32))[:-1] + "1", False, "character outside base32"), (5, False, "not a string"), (mkaddr(bytes(range(32)), good=False), False, "wrong checksum")]
+    # the text is emitted as written: anything around the 58 characters makes the `addr` token unreadable
+    good = mkaddr(bytes(range(32)))
+    cases += [(good + "=", False, "one trailing '='"), (good + "======", False, "base32 padding appended"), (good + " ", False, "a trailing blank"), (" " + good, False, "a leading blank"), (good + "\n", False, "a trailing line break"), (good.lower(), False, "lower-case letters")]
     for a, want, why in cases:
         try:
             run_function(f.node, {"address": a}, _oracle_re, f.fq, resolver=lambda nm: helpers.get(nm))
@@ -225,7 +228,7 @@ def r13_4_address(ctx):
         except Raised as r:
             acc = False
         ctx.check(acc == want, "R13.4", f"valid_address[{why}]", f"an address with {why} is {'accepted' if acc else 'refused'}", f.where, fact={"accepted": acc})
-    ctx.require_min("R13.4", 8)
+    ctx.require_min("R13.4", 14)
 
 
 def r13_5_abi_text_setters(ctx):
